@@ -254,6 +254,17 @@ def ni5(ctx):
                 continue
             n += 1
             tried = any(e['kind'] == 'err_prop' and (e.get('call') is cs or cs in e.get('calls', ())) for e in cb.exits())
+            if not tried and cs.dest_local() is not None:
+                # explicit spelling of `?`: `if let Err(e) = consult() { return Err(Conv(e)) }` -- the failure edge only
+                # leads to error exits, the success edge carries no data (the payload is ())
+                from core import result_edges
+                re_ = result_edges(cb, cs.dest_local())
+                if re_['err']:
+                    tried = True
+                    for ed in re_['err']:
+                        r_ = cb.reach([ed[1]])
+                        if any(e['point'] in r_ and e['kind'] not in ('err', 'err_prop') for e in cb.exits()):
+                            tried = False
             # the Continue payload () is not used for anything
             ctx.check(tried and b.ret_ty == 'std::result::Result<(), std::io::Error>', '%s<-%s' % (b.path, cb.path), where(cb, cs.point), 'consult result is io::Result<()> consumed by `?`',
                       'the policy consult returns data or its result is inspected by the caller: the policy could steer the caller')
@@ -619,7 +630,8 @@ def past3(ctx):
         if 'AppendRecords' not in kw:
             continue
         fl = flow_of(b)
-        np_calls = [cs for cs in b.calls if cs.node is not None and cs.dest_local() is not None and b.local_ty(cs.dest_local()).startswith('std::result::Result<u64, error::MissingQueue')]
+        from vocab import next_position_calls
+        np_calls = next_position_calls(ctx, b)
         t_next = set()
         for cs in np_calls:
             t_next |= fl.forward(set(fl.call_result_nodes(cs)))
